@@ -152,6 +152,9 @@ let run (op : string) (f : string list) : string =
          (match M.plan_links (op = "links") (to_str out) u (to_str svcfile) with
           | M.COk l -> ok (List.concat_map (fun (p, t) -> [of_str p; of_str t]) l)
           | M.CPanic -> "PANIC" | M.CSkip -> "SKIP" | M.CErr (_, _) -> "ERR"))
+  | "root_includes", comps -> ok [tf (M.root_includes (List.map to_str comps))]
+  | ("rootless_includes" | "rootless_includes_pinned"), uid :: comps ->
+      ok [tf (M.rootless_includes (op = "rootless_includes") (to_str uid) (List.map to_str comps))]
   | "is_url", [s] -> ok [tf (M.is_url (to_str s))]
   | "cleaned", [p] -> ok [of_str (M.cleaned (to_str p))]
   | "absolute_from", [p; r] -> (match M.absolute_from (to_str p) (to_str r) with Some x -> ok [of_str x] | None -> "CWD")
